@@ -22,7 +22,7 @@ type c01 struct{ base }
 
 func init() {
 	core.Register(c01{base{id: "C01", level: "exploration", quickB: 8, thoroughB: 32,
-		rule: "connections to servers with ClearTextPassword(validator) or a custom failing AuthStrategy; validator outcome (accept / false / (false,error) / (true,error) / (nil ctx,false,error)) is a function of the password; in place of the password message: every frontend type byte, unterminated / empty / sub-minimum / oversized / truncated bodies, immediate EOF; continuations (pipelined in the same segment, or late after the rejection was observed) of Q/P/B/D/E/S/X messages and random bytes; the client never half-closes in non-accepting cases so the server's own Close is observed. Non-trivial = non-accepting case with a continuation; distinct = (strategy, outcome kind, continuation placement, continuation message kinds).",
+		rule: "connections to servers with ClearTextPassword(validator) or a custom failing AuthStrategy; validator outcome (accept / false / (false,error) / (true,error) / (nil ctx,false,error)) is a function of the password; start-up packets optionally carry an accepting password as surplus behind their parameter list; in place of the password message: every frontend type byte, unterminated / empty / sub-minimum / oversized / truncated bodies, immediate EOF; continuations (pipelined in the same segment, or late after the rejection was observed) of Q/P/B/D/E/S/X messages and random bytes; the client never half-closes in non-accepting cases so the server's own Close is observed. Non-trivial = non-accepting case with a continuation; distinct = (strategy, outcome kind, continuation placement, continuation message kinds).",
 		need:        []string{"rejected_with_pipelined_continuation", "rejected_with_late_continuation", "accepted_sessions_probed", "malformed_password_messages", "validator_errors", "server_close_observed"},
 		assumptions: append([]string{"an ErrorResponse after a validator error or a malformed message is allowed but not required; after validator=false an ErrorResponse with SQLSTATE class 28 is required"}, commonAssumptions...)}})
 }
@@ -204,6 +204,13 @@ func (ch c01) runCase(c *core.Ctx, env *hs.Env, k c01case, rng *core.Rng, probe 
 		c.Violate(rule, sig, fmt.Sprintf("case %+v: %s; server output: %s", k.sig(), detail, replyKinds(cl.C.Out())), k)
 	}
 	start := pg.Startup([][2]string{{"user", k.User}, {"database", k.DB}})
+	if rng.Intn(3) == 0 {
+		// surplus bytes behind the parameter list inside the startup packet that would be an accepting
+		// password if a later (empty, malformed) message were answered from stale buffer content
+		body := []byte("user\x00" + k.User + "\x00database\x00" + k.DB + "\x00\x00ok:left-over-in-startup-packet\x00")
+		start = pg.StartupRaw(pg.Version30, body)
+		c.Count("startup_packets_with_accepting_surplus", 1)
+	}
 	custom := k.Strategy != "cleartext"
 	accepting := k.Kind == "accept" && !custom
 	cont := k.contBytes(rng)
